@@ -1,17 +1,16 @@
 #!/bin/bash
 # tools/try.sh <round-dir> <Cxx/mN>... [-- seeds]  -- quick detection try of raw agent output against the current harness, in a scratch worktree (no confirmation step)
 cd "$(dirname "$0")/.." || exit 2
-R=$1; shift
+R=$1; shift; mkdir -p work
 export GOFLAGS=-mod=mod GOPROXY=off GOSUMDB=off GOTOOLCHAIN=local
 WT=/tmp/wt-try-$$
 git -C /repo worktree add -q --detach "$WT" HEAD || exit 2
 trap 'git -C /repo worktree remove --force "$WT" >/dev/null 2>&1' EXIT
 for m in "$@"; do
-  p=${m%%/*}; p=${p%%-*}
+  p=${m%%/*}; p=${p%%-*}; [ -n "${PROP:-}" ] && p=$PROP
   f="$R/$m/patch.diff"
   if [ "$m" = clean ]; then p=$CLEAN_PROP; else git -C "$WT" apply "$f" || { echo "$m: patch does not apply"; continue; }; fi
-  MUX_REPO="$WT" ./run.sh "$p" "${TIER:-quick}" > work/try.log 2>&1; rc=$?
-  echo "$m rc=$rc $(grep -cE '^VIOLATION' work/try.log) violations :: $(grep -E '^(VIOLATION|INCONCLUSIVE)' work/try.log | head -1 | cut -c1-230)"
+  MUX_REPO="$WT" ./run.sh "$p" "${TIER:-quick}" > work/try-$$.log 2>&1; rc=$?
+  echo "$m rc=$rc $(grep -cE '^VIOLATION' work/try-$$.log) violations :: $(grep -E '^(VIOLATION|INCONCLUSIVE)' work/try-$$.log | head -1 | cut -c1-230)"
   git -C "$WT" checkout -q -- .; git -C "$WT" clean -fdq
 done
-rm -f replays/*.json
